@@ -240,14 +240,33 @@ def _cls_leak(data, finding):
 
 @vlib.classifier('ignore-align')
 def _cls_align(data, finding):
-    """id-less notebook, only ignored content differs, and at least two cells share their source:
-    the alignment predicates look at outputs whatever the ignore table says"""
-    if data.get('kind') != 'only-ignored-nonempty':
+    """only ignored content differs and whole cells are reported as added / removed: the cell alignment changed because
+    the alignment predicates look at (a) outputs of cells that share their source in a notebook without usable ids, or
+    (b) ids that differ although ids are ignored"""
+    if data.get('kind') != 'only-ignored-nonempty' or '/cells/*' not in (data.get('other') or []):
         return False
-    a = dec(data['a'])
+    a, b = dec(data['a']), dec(data['b'])
+    ignored = data.get('ignored', [])
     srcs = [(c['cell_type'], c['source']) for c in a['cells']]
-    idless = not any('id' in c for c in a['cells']) or 'id' in data.get('ignored', [])
-    return idless and len(set(srcs)) < len(srcs) and 'outputs' in data.get('ignored', [])
+    idless = not any('id' in c for c in a['cells']) or 'id' in ignored
+    same_source = idless and len(set(srcs)) < len(srcs) and 'outputs' in ignored
+    ids_differ = 'id' in ignored and [c.get('id') for c in a['cells']] != [c.get('id') for c in b['cells']]
+    return same_source or ids_differ
+
+
+@vlib.classifier('numeric-alias-ignore')
+def _cls_alias_ignore(data, finding):
+    """the patched notebook differs from the target, outside the ignored categories, only by ==-equal numbers of
+    different JSON type"""
+    from checks.c02 import norm_alias
+    if data.get('kind') != 'unfaithful':
+        return False
+    try:
+        got, want, ignored = dec(data['got']), dec(data['b']), data.get('ignored', [])
+    except Exception:
+        return False
+    return canon(mask(got, ignored)) != canon(mask(want, ignored)) and \
+        canon(norm_alias(mask(got, ignored))) == canon(norm_alias(mask(want, ignored)))
 
 
 def prop(ignored, mode):
